@@ -1,7 +1,7 @@
 """C05 — vers text and range objects round-trip losslessly and canonically."""
 import random
 
-from harness import common, core, gens, text, vers
+from harness import common, core, dense, gens, text, vers
 
 
 def run(ctx):
@@ -102,12 +102,15 @@ def run(ctx):
     for q, g, w, d in zip(reqs, got, wants, descr):
         if g != w:
             diffs.append(dict(request=q, what=d, model=g, impl=w))
+    # ---- the same statement on dense families of versions (one edit apart, equal under another spelling): harness/dense.py
+    dense_ev, dense_per = dense.run(ctx, "C05", r, lambda what, **kw: violations.append(dict(kind="counterexample", stage="search", what=what, **kw)))
+    evals += dense_ev
     if not violations and (diffs or not proofs["ok"]):
         what = ("theorems of Props/C05.v no longer check: " + str(proofs.get("error"))[-400:]) if not proofs["ok"] else \
             ("model and implementation differ: " + str(diffs[0]))
         violations.append(dict(kind="no-failing-input-found", stage="proof" if not proofs["ok"] else "correspondence",
                                theorem_or_stream="Props/C05.v" if not proofs["ok"] else "text layer on the generic scheme", what=what, diffs=diffs[:10]))
-    cov = dict(evaluations=evals, distinct_nontrivial=len(nontrivial),
+    cov = dict(evaluations=evals, dense_pairs=dense_per, distinct_nontrivial=len(nontrivial),
                rule=f"{nper} random ranges (1-8 constraints, any comparators, shuffled construction order, one in four with repeated versions, '*') for each of the "
                     f"{len(classes)} registered schemes with versions from the scheme grammar whose printed text is delimiter-free: print, parse, compare, print again, printed "
                     "form vs the version-ordered list, to_dict; registry vs every range class; print/parse of the model vs the implementation on the generic scheme; "
